@@ -237,9 +237,10 @@ class Problem:
 class Cmd:
     """line: driver command; check(res) -> [Problem]; cell: hashable shape class;
     nontrivial: None | callable(res)->bool | bool"""
-    __slots__ = ('line', 'check', 'cell', 'nontrivial', 'prop')
+    __slots__ = ('line', 'check', 'cell', 'nontrivial', 'prop', 'uid')
 
     def __init__(self, line, check, cell=None, nontrivial=True, prop=None):
+        self.uid = None
         self.line = line
         self.check = check
         self.cell = cell
@@ -279,7 +280,9 @@ def chk_big(prop, got, want, what, kind=None):
     if got.v != want:
         out.append(Problem(prop, what + ': wrong value', 'got=%r want=%s' % (got, fmt_want(want))))
     if not got.canon:
-        out.append(Problem('C04', what + ': result not in canonical form (high zero digit or sign/zero mismatch)', 'got=%s' % got.raw))
+        # a non-canonical object does not compare equal to the integer it denotes, so the operation's own
+        # property ("returns exactly ...") is violated as well as C04
+        out.append(Problem({'C04', prop}, what + ': result not in canonical form (high zero digit or sign/zero mismatch)', 'got=%s' % got.raw))
     return out
 
 
